@@ -100,11 +100,23 @@ func cmdProp(args []string) {
 			keys = append(keys, k)
 		}
 	}
+	uncontracted := map[string]bool{}
+	if *id == "C09" {
+		for _, k := range c09Roots(e) {
+			if e.cs.Funcs[k] == nil {
+				uncontracted[k] = true
+				keys = append(keys, k)
+			} else if !hasProp(e.cs.Funcs[k].Props, *id) {
+				keys = append(keys, k)
+			}
+		}
+	}
 	sort.Strings(keys)
 	scratch, _ := os.MkdirTemp("", "goverif-"+*id)
 	defer os.RemoveAll(scratch)
 
 	var all []*Obligation
+	var notAnalysed []string
 	var engineErrs []string
 	trusted := map[string]bool{}
 	var funcs []string
@@ -115,7 +127,7 @@ func cmdProp(args []string) {
 			engineErrs = append(engineErrs, "contract for unknown function "+k)
 			continue
 		}
-		if fc.Trusted {
+		if fc != nil && fc.Trusted && *id != "C09" {
 			trusted["trusted contract (body not verified): "+shortTypeKey(k)] = true
 			continue
 		}
@@ -127,6 +139,10 @@ func cmdProp(args []string) {
 		funcs = append(funcs, shortTypeKey(k))
 		npaths += x.npaths
 		for _, er := range x.errs {
+			if uncontracted[k] {
+				notAnalysed = append(notAnalysed, shortTypeKey(k)+": "+er)
+				continue
+			}
 			engineErrs = append(engineErrs, shortTypeKey(k)+": "+er)
 		}
 		for t := range e.trusted {
@@ -134,6 +150,13 @@ func cmdProp(args []string) {
 		}
 		var mine []*Obligation
 		for _, ob := range x.obs {
+			if *id == "C09" {
+				// only the synchronisation obligations (and the vacuity probes) belong to C09
+				if hasProp(ob.Props, "C09") || ob.Kind == "lock" || (ob.Cover && strings.HasSuffix(ob.Name, "requires_sat")) {
+					mine = append(mine, ob)
+				}
+				continue
+			}
 			if len(ob.Props) == 0 || hasProp(ob.Props, *id) {
 				mine = append(mine, ob)
 			}
@@ -330,6 +353,7 @@ func cmdProp(args []string) {
 		"failed_obligations":        failedNames,
 		"contract_files":            relFiles(e.cs.Files, *repo),
 		"bounded_stand_ins":         boundedDesc,
+		"not_analysed":              notAnalysed,
 	}
 	assumptions := append([]string{
 		"integers are mathematical (no overflow) unless an explicit no-overflow obligation is listed",
@@ -517,5 +541,33 @@ func (e *Engine) runBounded(id, repo, verif string) []boundedRun {
 		}
 		out = append(out, b)
 	}
+	return out
+}
+
+// c09Roots: the entry points of the packages named by C09: exported functions and methods, function literals,
+// and everything under contract. Unexported helpers without a contract are covered by inlining from their callers.
+func c09Roots(e *Engine) []string {
+	pkgs := []string{"/roundrobin", "/cbreaker", "/memmetrics", "/ratelimit", "/connlimit", "/internal/holsterv4/collections", "/trace"}
+	var out []string
+	for k, f := range e.funcs {
+		in := false
+		for _, p := range pkgs {
+			if f.Pkg != nil && f.Pkg.Pkg.Path() == oxyMod+p {
+				in = true
+			}
+		}
+		if !in || len(f.Blocks) == 0 {
+			continue
+		}
+		if e.cs.Funcs[k] != nil {
+			out = append(out, k)
+			continue
+		}
+		name := f.Name()
+		if f.Parent() != nil || (len(name) > 0 && name[0] >= 'A' && name[0] <= 'Z') {
+			out = append(out, k)
+		}
+	}
+	sort.Strings(out)
 	return out
 }
